@@ -296,6 +296,11 @@ def check_option_spellings(fx, rep):
             if w in lits:
                 continue
             missing.append(w)
+        early = [x for x in A.nodes(it.get('body') or []) if x.get('k') == 'return' and re.sub(r'\s', '', A.text(x.get('expr') or x.get('value') or {}) or '') == 'false']
+        rep.check(len(early) <= 1, 'R12.2', 'is_option_type|no-rejecting-guard', '%s:%s' % (fn, it.get('line')),
+                  'is_option_type gives up early only for a type that is not a path',
+                  'is_option_type has %d early `return false` (one - the non-path case - is expected): a guard ahead of the spelling comparisons turns some way of writing `Option<T>` '
+                  '(`::std::option::Option`, a qualified path ..) into "not optional", and its `None` goes out as `null`' % len(early))
         rep.check(not missing, 'R12.2', 'is_option_type|spellings', '%s:%s' % (fn, it.get('line')),
                   'is_option_type recognises Option, std::option::Option and core::option::Option',
                   'is_option_type has no alternative that equals %s (its literals: %s): an argument declared with that spelling is not treated as optional, its `None` goes out as '
